@@ -186,7 +186,11 @@ func runClientCase(k sigKind) (fs []finding, herr string, steps int) {
 		ssocks[1].Emit("ev", k.args(5)...)
 		vsched.Sleep(time.Second)
 		if strings.Join(got, " | ") != want(5) && liveOK {
-			add("client: recovered, but the events were not delivered exactly once, in order and intact", "the handler recorded [%s], expected [%s] (events 3 and 4 were emitted while the link was down); manager errors %v", strings.Join(got, " | "), want(5), errs)
+			key := "client: recovered, but the events were not delivered exactly once, in order and intact"
+			if strings.Contains(k.name, "Binary") {
+				key = "client: recovered, but binary events were not delivered exactly once, in order and intact"
+			}
+			add(key, "the handler recorded [%s], expected [%s] (events 3 and 4 were emitted while the link was down); manager errors %v", strings.Join(got, " | "), want(5), errs)
 		}
 	})
 	steps = e.Steps
